@@ -120,6 +120,7 @@ class LenInterp(object):
         self.cls = cls
         self.mod_funcs = {n.name: n for n in tree.body if isinstance(n, ast.FunctionDef)}
         self.methods = {n.name: n for n in cls.body if isinstance(n, ast.FunctionDef)}
+        self.cls_name = cls.name
 
     # state: (env dict, cell poly, frozenset other writes)
     def ev(self, e, st, depth):
@@ -247,6 +248,10 @@ class LenInterp(object):
         bound_self = None
         if isinstance(c.func, ast.Name) and c.func.id in self.mod_funcs:
             fn = self.mod_funcs[c.func.id]
+        elif isinstance(c.func, ast.Attribute) and isinstance(c.func.value, ast.Name) \
+                and c.func.value.id == getattr(self, "cls_name", None) and c.func.attr in self.methods:
+            # Length.method(self, ...): the method of this class, called unbound
+            fn = self.methods[c.func.attr]
         elif isinstance(c.func, ast.Attribute):
             bases = self.ev(c.func.value, st, depth)
             if len(bases) == 1 and bases[0][0] is SELF and c.func.attr in self.methods:
